@@ -110,6 +110,26 @@ Proof.
 Qed.
 Print Assumptions c15_framing_rtp.
 
+(* ... and WITH OPTIONS keep-alives: the stream is '$' frames and the replies;
+   the RFC 2326 section 10.12 reader ([rtsp_parse1]: '$' -> binary frame, 'R' ->
+   header block up to the first empty line) reads all of its whole-unit part,
+   provided every reply text is a header block ([resp_ok]; lal's is). *)
+Theorem c15_framing_rtp_keepalive : forall specs evs j su cap s,
+  nth_error specs j = Some (KRtp su, cap) ->
+  nth_error (fst (run evs (init_state specs))) j = Some s ->
+  (forall b, In b (pub_payloads evs) -> lenN b < 65536) ->
+  (forall i size resp, In (EvIn i size (InOptions resp)) evs -> resp_ok resp) ->
+  exists whole tail frames,
+    c_wire (s_conn s) = concat whole ++ tail /\
+    subseq whole (map ubytes (offered (KRtp su) evs)) /\
+    parses rtsp_parse1 (concat whole) frames /\
+    tail_ok (KRtp su) evs s tail.
+Proof.
+  intros specs evs j su cap s Hk Hs Hp Hr. rewrite (run_session specs evs j (KRtp su) cap Hk) in Hs.
+  inversion Hs; subst. apply rtp_stream_mixed; assumption.
+Qed.
+Print Assumptions c15_framing_rtp_keepalive.
+
 (* RTMP, Write and Writev: any message-stream reader that reads each published
    unit (the chunks of whole messages) as a self-contained piece reads the
    whole received stream. *)
@@ -311,6 +331,19 @@ Print Assumptions c15_inbound_never_keeps_alive.
 Theorem c15_inbound_is_quiet : forall id su i size x, quiet id (EvIn i size x) /\ idle_ev su (EvIn i size x).
 Proof. intros. split; [apply quiet_in|apply idle_in]. Qed.
 Print Assumptions c15_inbound_is_quiet.
+
+(* The property was FALSE of the code as it stood (F-35): a reply of an rtsp-over-
+   WebSocket session (to the OPTIONS keep-alive of a playing subscriber, among
+   others) was a header write and a text write; a media frame of the forwarding
+   goroutine between the two breaks the player's frame stream - reproduced on Go
+   with a reading player within a few hundred frames. *)
+Theorem c15_ws_reply_split_refuted :
+  parse_all ws_parse1 20
+    (f35_wire [[make_ws_frame_header true false false false 2 (lenN f35_resp) false 0]; [f35_media]; [f35_resp]]) = None /\
+  parse_all ws_parse1 20 (f35_wire [[f35_media]; [ws_write f35_resp]]) = Some [pack_interleaved 0 [128; 96]; f35_resp] /\
+  parse_all ws_parse1 20 (f35_wire [[ws_write f35_resp]; [f35_media]]) = Some [f35_resp; pack_interleaved 0 [128; 96]].
+Proof. exact ws_reply_split_refuted. Qed.
+Print Assumptions c15_ws_reply_split_refuted.
 
 (* --- no retry --------------------------------------------------------------- *)
 (* A session-level write of any kind, in any state of its queue (room, full,
